@@ -1,4 +1,4 @@
-\* demo: an aborted multi-chunk send resets the counter although chunks were written -> InvSeqStep
+\* demo (repaired in d8b779a): a send that fails before its first chunk keeps its sequence number -> gap, InvSeqStep
 CONSTANTS
   Senders = {"p1", "p2"}
   MaxChunks = 2
@@ -8,8 +8,8 @@ CONSTANTS
   Gen = FALSE
   MayAbort = TRUE
   MayFailEarly = TRUE
-  Dev_SeqConsumedOnEarlyFailure = FALSE
-  Dev_ResetSeqOnAbort = TRUE
+  Dev_SeqConsumedOnEarlyFailure = TRUE
+  Dev_ResetSeqOnAbort = FALSE
   Dev_GateGap = FALSE
   Dev_FailedRenewSeq = FALSE
 INIT Init
